@@ -65,6 +65,12 @@ func GenByProfile(profile string, seed int64, i int, id string) *scen.Scenario {
 	case "layout":
 		return scen.GenLayout(r, scen.LayoutCfg{MaxIfaces: 3, MaxMethods: 40, Surround: true, Comments: true, OneLine: true,
 			NotationsIface: true, DoclessIface: 0.3, Imports: true, BuildVariants: true, PkgDoc: true}, id, id)
+	case "errs":
+		return scen.GenBroad(r, scen.Errs(), id, id)
+	case "hooks":
+		return scen.GenBroad(r, scen.Hooks(), id, id)
+	case "slices":
+		return scen.GenBroad(r, scen.Slices(), id, id)
 	default:
 		return scen.GenBroad(r, scen.Broad(), id, id)
 	}
